@@ -66,7 +66,8 @@ def scripts(draw, tier):
     c["se"] = draw(st.sampled_from([1, 1, 1, 2, 3, 4]))  # starting_epoch: epochs are numbered se..E, periods refer to the epoch NUMBER
     c["extra_names"] = draw(st.booleans())              # the evaluator tracks other quantities besides the monitored one
     c["variance_name"] = draw(st.sampled_from([None, "m", "a", "m_variance"]))    # deprecated class only: documented as ignored
-    c["second_stopper"] = draw(st.sampled_from([None, None, "before", "after"]))  # another stopper on the SAME evaluator (other quantity, other patience, tolerance 0: never fires)
+    c["second_stopper"] = draw(st.sampled_from([None, None, "before", "after"]))
+    c["second_same_quantity"] = draw(st.booleans())  # another stopper on the SAME evaluator (other quantity, other patience, tolerance 0: never fires)
     return c
 
 
@@ -216,8 +217,11 @@ def check(c):
     ends = []
     rec = LambdaCallback(on_epoch_end=lambda s, e: ends.append(e))
     stoppers = [es]
-    if c.get("second_stopper") and c.get("extra_names"):
-        es2 = EarlyStopping(1, 0.0, 1 if c["patience"] > 1 else 2, ev, "a", criterion=c["criterion"])
+    if c.get("second_same_quantity") and c["criterion"] == "relative":
+        c = dict(c, second_same_quantity=False)      # a relative change against a scripted value of exactly 0 is undefined; the main stopper's run is cut before such a check, the second one's lag is not tracked
+    if c.get("second_stopper") and (c.get("extra_names") or c.get("second_same_quantity")):
+        # another stopper on the SAME evaluator (never fires: tolerance 0), with another patience; it watches another quantity or the same one
+        es2 = EarlyStopping(1, 0.0, 1 if c["patience"] > 1 else 2, ev, "m" if c.get("second_same_quantity") else "a", criterion=c["criterion"])
         stoppers = [es2, es] if c["second_stopper"] == "before" else [es, es2]
         labels.append("second_stopper")
     cb_list = (stoppers + [ev, rec]) if c.get("stopper_first") else ([ev] + stoppers + [rec])
